@@ -606,6 +606,25 @@ class Twin:
         self.sync("room appears on the first parity disk (limits %r), one more stripe" % self.lims(0))
         self.check("after the second sync")
 
+    def directed_more_room(self):
+        """every configured split is in use (no empty one in front of a used one), then every disk gets more room: only the last
+        split may grow, the recorded stripes of the full splits stay where they are"""
+        rng = self.rng
+        n = next(n for n in range(2 * BS + 3, 40 * BS) if all(2 * BS <= plimit(n, s, 0) < 6 * BS for s in range(3)))
+        self.n = n
+        need = sum(x // BS for x in self.lims(0)[:2]) + 2
+        vals = [self.val() for _ in range(need)]
+        self.write(0, "A", vals[:need // 2]); self.write(1, "B", vals[need // 2:])
+        self.write(0, "C", [self.val() for _ in range(need - need // 2)])
+        self.sync("first sync, limits %r: all three splits are in use" % self.lims(0))
+        self.check("after the first sync")
+        self.const = False
+        self.n = 3 * n + 1
+        self.write(1, "D", [self.val(), self.val(), self.val()])
+        self.sync("more room on every parity disk (limits %r), three more stripes" % self.lims(0))
+        self.check("after the second sync")
+        self.loss_and_fix()
+
     def close(self):
         self.A.destroy()
         self.T.destroy()
@@ -630,6 +649,12 @@ def _scenario(job):
             t = Twin(seed, 2, 1, [3], 0, data_seed)
             t.keep_going = True
             t.directed_f8()
+        elif kind == "more-room":
+            t = Twin(seed, 2, 1, [3], 0, data_seed)
+            try:
+                t.directed_more_room()
+            except Diverged:
+                pass
         else:
             ks = [rng.randint(1, kmax) for _ in range(np_)]
             if kind == "wide":
@@ -696,7 +721,7 @@ def binding_part(v, tier, cov):
     kmax = 4 if quick else 8
     shapes = [(2, 1), (2, 2), (3, 2), (3, 3), (2, 3), (3, 1)]
     nrand, nsteps = (48, 9) if quick else (420, 14)
-    jobs = [(s0 + 700, 2, 1, 3, "f8", 0, None)]
+    jobs = [(s0 + 700, 2, 1, 3, "f8", 0, None), (s0 + 701, 2, 1, 3, "more-room", 0, None), (s0 + 702, 2, 1, 3, "more-room", 0, None)]
     for i in range(nrand):
         nd, np_ = shapes[i % len(shapes)]
         jobs.append((s0 + 2000 + i, nd, np_, kmax, "wide" if i % 5 == 4 else "random", nsteps, None))
